@@ -647,7 +647,7 @@ func ruleReadAtCursor(c *Check, rCursor, rProgress string) {
 
 // sizeGuarded checks, at a slice event with High = (O + S), that S is known
 // non-negative and not larger than what remains.
-func ruleLengthGuarded(c *Check, rule string) {
+func ruleLengthGuarded(c *Check, rule string, roundTrip bool) {
 	for _, name := range []string{"snapshot.(*DBI).Next", "snapshot.(*DBI).indexData", "snapshot.(*KV).Unmarshal"} {
 		fn, paths := Walk(c.P, c.P.Func(name), WalkConfig{Bounds: true}), []Path(nil)
 		if fn.Err != nil {
@@ -682,6 +682,35 @@ func ruleLengthGuarded(c *Check, rule string) {
 					continue
 				}
 				if !strings.Contains(size, "csproto.DecodeVarint(") {
+					if roundTrip && !strings.Contains(size, "@") && strings.Contains(size, "[") {
+						// assembled by hand from bytes of the buffer (no call result takes part
+						// in it): a varint is read back as written only if every byte that
+						// contributes is tested for its continuation bit on this path
+						n++
+						var untested []string
+						for _, by := range bufferBytes(size) {
+							tested := false
+							for _, cd := range p.Conds() {
+								a := cd.Atom
+								if a.Kind != "cmp" {
+									continue
+								}
+								for _, pr := range [][2]string{{a.A, a.B}, {a.B, a.A}} {
+									x := stripConv(pr[0])
+									if strings.HasPrefix(pr[1], "const:") && (x == by || strings.HasPrefix(x, "("+by+" & const:") || strings.HasPrefix(x, "(conv:") && strings.Contains(x, "("+by+") & const:")) {
+										tested = true
+									}
+								}
+							}
+							if !tested {
+								untested = append(untested, by)
+							}
+						}
+						if len(untested) > 0 {
+							bad++
+							c.Bad(rule, name+"/length-from-decoder", "a field length used as a slice bound ("+hi+") is put together by hand from buffer bytes, and "+strings.Join(untested, ", ")+" contributes to it without its continuation bit being tested on this path: lengths with more varint bytes than this short-cut expects are misread, and with them every field that follows", c.P.InstrPos(e.Instr), describe(c, p))
+						}
+					}
 					continue
 				}
 				n++
@@ -2001,4 +2030,70 @@ func ruleWholeStream(c *Check, rule string) {
 		c.Ok(rule, name+"/whole-stream", fmt.Sprintf("all %d accepting paths collect the decompressed bytes from the gzip reader itself until it reports the end", n), c.P.Pos(fn.Pos()))
 	}
 	c.Floor(rule, n, 1, "accepting paths of LoadData")
+}
+
+// bufferBytes lists the distinct single-byte reads "X[i]" that occur in an expression.
+func bufferBytes(expr string) []string {
+	var out []string
+	seen := map[string]bool{}
+	for i := 0; i < len(expr); i++ {
+		if expr[i] != ']' {
+			continue
+		}
+		// walk back to the matching '[' and then over the operand in front of it
+		d, j := 0, i
+		for ; j >= 0; j-- {
+			if expr[j] == ']' {
+				d++
+			}
+			if expr[j] == '[' {
+				d--
+				if d == 0 {
+					break
+				}
+			}
+		}
+		if j <= 0 {
+			continue
+		}
+		k := j - 1
+		if expr[k] == ')' {
+			d = 0
+			for ; k >= 0; k-- {
+				if expr[k] == ')' {
+					d++
+				}
+				if expr[k] == '(' {
+					d--
+					if d == 0 {
+						break
+					}
+				}
+			}
+		}
+		for k > 0 && (expr[k-1] == '_' || expr[k-1] == ':' || expr[k-1] == '.' || expr[k-1] == '~' || expr[k-1] == '@' || expr[k-1] == '#' || expr[k-1] >= '0' && expr[k-1] <= '9' || expr[k-1] >= 'a' && expr[k-1] <= 'z' || expr[k-1] >= 'A' && expr[k-1] <= 'Z') {
+			k--
+		}
+		if k < 0 {
+			k = 0
+		}
+		b := expr[k : i+1]
+		if !seen[b] {
+			seen[b] = true
+			out = append(out, b)
+		}
+	}
+	return out
+}
+
+// stripConv removes the integer conversions wrapped around an expression.
+func stripConv(e string) string {
+	for strings.HasPrefix(e, "conv:") && strings.HasSuffix(e, ")") {
+		i := strings.Index(e, "(")
+		if i < 0 {
+			break
+		}
+		e = e[i+1 : len(e)-1]
+	}
+	return e
 }
